@@ -70,6 +70,9 @@ impl<'a> Sampler<'a> {
 
 pub fn mutate(rng: &mut Rng, w: &[u32], ntoks: usize) -> Vec<u32> {
     let mut v = w.to_vec();
+    if ntoks == 0 {
+        return v;
+    }
     let n = rng.range(1, 3);
     for _ in 0..n {
         match rng.below(3) {
